@@ -141,7 +141,7 @@ func init() {
 			}
 			// message forms of %todo("...")%: the documented error carries the given message whatever it contains
 			w.Case("messages", func(c *C) {
-				msgs := []string{"", "x", "set me at run time", "à faire – później 😀", `say \"hi\"`, "a, (b), [c]", "100\\x25 done \\x25d \\x25s \\x25!", "\\u0025v and \\045", "tab\there", "semi;colon: and 'quotes'", "very " + strings.Repeat("long ", 60)}
+				msgs := []string{"", "x", "set me at run time", "à faire – później 😀", `say \"hi\"`, "a, (b), [c]", "phase 1,phase 2 ,phase 3  ,  pending", `27\" panel first`, `one \" two \" three \"`, "100\\x25 done \\x25d \\x25s \\x25!", "\\u0025v and \\045", "tab\there", "semi;colon: and 'quotes'", "very " + strings.Repeat("long ", 60)}
 				cfg := &Cfg{Meta: stdMeta()}
 				var ops []ProbeOp
 				for i, m := range msgs {
